@@ -31,6 +31,31 @@ var (
 )
 
 const c04Finding = "F18-C04-sticky-savepoint-error"
+const c04FindingLeak = "F27-C04-begin-on-failed-handle"
+
+// c04Facts: the regenerated fact (extract/gen_c04.go → Gen/BeginFacts.lean, read through the Lean driver) that tells whether
+// the repair of F27 is present in the tree under test. It selects the model's transcription of Begin (Lean side) and switches
+// the generators: a repaired pattern is ordinary input space and is no longer avoided.
+type c04FactsT struct {
+	BeginChecksError bool `json:"beginChecksError"`
+}
+
+var c04FactsCache *c04FactsT
+
+func c04Facts() c04FactsT {
+	if c04FactsCache == nil {
+		f := c04FactsT{}
+		if outs, err := AskLean([][]interface{}{{"tx.facts"}}); err == nil && len(outs) == 1 {
+			_ = json.Unmarshal(outs[0], &f)
+		}
+		c04FactsCache = &f
+	}
+	return *c04FactsCache
+}
+
+// c04AvoidLeak: while F27 is a listed finding of an unrepaired tree the random generators produce its pattern (Transaction /
+// Begin outside a transaction on a handle that carries an error) only now and then, so that exploration continues beyond it
+func c04AvoidLeak() bool { return listed(c04FindingLeak) && !c04Facts().BeginChecksError }
 
 type c04Case struct {
 	Cfg     c04Cfg        `json:"cfg"`
@@ -87,6 +112,8 @@ func (g *c04Gen) body(d int, inTx bool, maxKids int, top bool) []*c04Node {
 				nm = int64(1 + g.rng.Intn(4)) // possibly an outer / unknown name
 			}
 			out = append(out, &c04Node{K: "rb", ID: nm, Must: must})
+		case r < 72 && r >= 66 && d > 0:
+			out = append(out, g.failed(d, inTx, maxKids, must))
 		case r < 80 && r >= 66 && d > 0:
 			out = append(out, g.derive(d, inTx, maxKids, must))
 		case r < 84 && d > 0 && (!inTx || g.rng.Intn(4) == 0):
@@ -155,6 +182,69 @@ func (g *c04Gen) derive(d int, inTx bool, maxKids int, must bool) *c04Node {
 		n.Body = []*c04Node{g.derive(d-1, inTx, maxKids, m)}
 	}
 	return n
+}
+
+// failed: user code goes on working through a handle that ALREADY CARRIES AN ERROR (its own AddError on a Session / WithContext
+// handle, or the handle a failed finisher returned): writes, reads, save points, Transaction blocks, manual sequences, further
+// derivations and further failed handles — at top level, inside blocks, inside manual sequences. No "end" nodes below.
+func (g *c04Gen) failed(d int, inTx bool, maxKids int, must bool) *c04Node {
+	n := &c04Node{K: "fh", Kind: c04FailKinds[g.rng.Intn(len(c04FailKinds))], ID: g.tag(), Must: must}
+	beginOK := inTx || !c04AvoidLeak() || g.rng.Intn(8) == 0
+	n.Body = g.failedBody(d, inTx, maxKids, beginOK)
+	return n
+}
+
+func (g *c04Gen) failedBody(d int, inTx bool, maxKids int, beginOK bool) []*c04Node {
+	k := 1 + g.rng.Intn(maxKids)
+	var out []*c04Node
+	for i := 0; i < k; i++ {
+		must := g.rng.Intn(100) < 40
+		switch r := g.rng.Intn(100); {
+		case r < 15:
+			out = append(out, &c04Node{K: "w", ID: g.id(), Must: must})
+		case r < 20 && len(g.known) > 0:
+			out = append(out, &c04Node{K: "d", ID: g.known[g.rng.Intn(len(g.known))], Must: must})
+		case r < 25:
+			out = append(out, &c04Node{K: "u", ID: 1, Must: must})
+		case r < 32:
+			out = append(out, &c04Node{K: "q", Must: must})
+		case r < 40 && inTx:
+			out = append(out, &c04Node{K: []string{"sp", "rb"}[g.rng.Intn(2)], ID: int64(1 + g.rng.Intn(3)), Must: must})
+		case r < 65 && d > 0 && beginOK:
+			out = append(out, &c04Node{K: "blk", Body: g.plainBody(d-1, maxKids), Out: c04OutDist(g.rng), ID: g.tag(), Must: must})
+		case r < 80 && d > 0 && beginOK:
+			out = append(out, &c04Node{K: "man", Body: g.plainBody(d-1, maxKids), Out: g.rng.Intn(2), Must: must})
+		case r < 90 && d > 0:
+			kind := []string{"keep:Session", "newdb:Session", "prep:Session", "chain:Model", "keep:WithContext", "skiptx:Session", "disnested:Session", "debug:Debug"}[g.rng.Intn(8)]
+			out = append(out, &c04Node{K: "dv", Kind: kind, Body: g.failedBody(d-1, inTx, maxKids, beginOK), Must: must})
+		case d > 0:
+			out = append(out, &c04Node{K: "fh", Kind: c04FailKinds[g.rng.Intn(len(c04FailKinds))], ID: g.tag(),
+				Body: g.failedBody(d-1, inTx, maxKids, beginOK), Must: must})
+		default:
+			out = append(out, &c04Node{K: "w", ID: g.id(), Must: must})
+		}
+	}
+	return out
+}
+
+// plainBody: a function body without "end" nodes (writes, reads, nested blocks)
+func (g *c04Gen) plainBody(d int, maxKids int) []*c04Node {
+	k := g.rng.Intn(maxKids + 1)
+	var out []*c04Node
+	for i := 0; i < k; i++ {
+		must := g.rng.Intn(100) < 65
+		switch r := g.rng.Intn(10); {
+		case r < 5:
+			out = append(out, &c04Node{K: "w", ID: g.id(), Must: must})
+		case r < 7:
+			out = append(out, &c04Node{K: "q", Must: must})
+		case d > 0:
+			out = append(out, &c04Node{K: "blk", Body: g.plainBody(d-1, maxKids), Out: c04OutDist(g.rng), ID: g.tag(), Must: must})
+		default:
+			out = append(out, &c04Node{K: "w", ID: g.id(), Must: must})
+		}
+	}
+	return out
 }
 
 // reuseBody: SEVERAL operations through ONE chained (clone = 0) handle kept in a variable — `h := tx.Model(&T{}).Where(…)`, the
@@ -378,6 +468,58 @@ func c04EndFamily() [][]*c04Node {
 	return res
 }
 
+// c04FailFamily: every way of holding a handle that already carries an error × every site × everything that can be invoked on
+// it: Transaction (every outcome of a function that must not even run) and Begin OUTSIDE a transaction — the pattern of
+// finding F27 —, the same inside a block / a manual sequence (Begin never reaches the pool there), plain operations, save
+// points, further derivations (Session{NewDB}, PrepareStmt, chain methods: all of them copy the error), a failed handle made
+// from a failed handle, a per-session PrepareStmt handle underneath.
+func c04FailFamily() [][]*c04Node {
+	var res [][]*c04Node
+	w := func(id int64) *c04Node { return &c04Node{K: "w", ID: id, Must: true} }
+	wi := func(id int64) *c04Node { return &c04Node{K: "w", ID: id, Must: false} }
+	q := func() *c04Node { return &c04Node{K: "q", Must: true} }
+	qi := func() *c04Node { return &c04Node{K: "q", Must: false} }
+	dv := func(kind string, must bool, kids ...*c04Node) *c04Node { return &c04Node{K: "dv", Kind: kind, Body: kids, Must: must} }
+	for _, kind := range c04FailKinds {
+		fh := func(tag int64, must bool, kids ...*c04Node) *c04Node {
+			return &c04Node{K: "fh", Kind: kind, ID: tag, Body: kids, Must: must}
+		}
+		for out := 0; out < 3; out++ {
+			blk := func(must bool) *c04Node {
+				return &c04Node{K: "blk", Body: []*c04Node{w(1), q()}, Out: out, ID: 2, Must: must}
+			}
+			// P1: Transaction on the failed handle at top level (ignored by the caller / propagated), work goes on afterwards
+			res = append(res, []*c04Node{fh(1, false, blk(true)), w(2), q()})
+			res = append(res, []*c04Node{fh(1, true, blk(false), wi(3), blk(true)), w(2)})
+			// P2: … inside a block and inside a nested block (SAVEPOINT is refused; the enclosing transaction stays usable)
+			res = append(res, []*c04Node{{K: "blk", Body: []*c04Node{w(3), fh(1, false, blk(true)), w(4), q()}, Out: 0, ID: 5, Must: true}, q()})
+			res = append(res, []*c04Node{{K: "blk", Body: []*c04Node{w(3),
+				{K: "blk", Body: []*c04Node{fh(1, false, blk(true)), w(4)}, Out: out, ID: 6, Must: false}, q()}, Out: 0, ID: 5, Must: true}, q()})
+			// P3: … through further derivations of the failed handle, and below a per-session PrepareStmt handle
+			for _, k2 := range []string{"keep:Session", "newdb:Session", "prep:Session", "chain:Model", "disnested:Session"} {
+				res = append(res, []*c04Node{fh(1, false, dv(k2, true, blk(true))), w(2), q()})
+			}
+			res = append(res, []*c04Node{dv("prep:Session", true, fh(1, false, blk(true)), w(2)), q()})
+			// P4: a failed handle made from a failed handle
+			res = append(res, []*c04Node{fh(1, false, &c04Node{K: "fh", Kind: c04FailKinds[(out+1)%len(c04FailKinds)], ID: 7, Body: []*c04Node{blk(true)}, Must: true}), w(2)})
+		}
+		for fin := 0; fin < 2; fin++ {
+			man := func(must bool) *c04Node { return &c04Node{K: "man", Body: []*c04Node{w(1), q()}, Out: fin, Must: must} }
+			// P5: Begin on the failed handle (the documented `if tx.Error != nil { return }` caller): top level, in a block, in a manual sequence
+			res = append(res, []*c04Node{fh(1, false, man(true)), w(2), q()})
+			res = append(res, []*c04Node{{K: "blk", Body: []*c04Node{w(3), fh(1, false, man(true)), w(4)}, Out: 0, ID: 5, Must: true}, q()})
+			res = append(res, []*c04Node{{K: "man", Body: []*c04Node{w(3), fh(1, false, man(false), &c04Node{K: "blk", Body: []*c04Node{w(1)}, Out: 0, ID: 2, Must: false}), w(4)}, Out: fin, Must: true}, q()})
+		}
+		// P6: everything else through a failed handle is refused and changes nothing: top level, in a block (with save points)
+		res = append(res, []*c04Node{w(1), fh(1, false, wi(2), qi(), &c04Node{K: "d", ID: 1, Must: false}, &c04Node{K: "u", ID: 1, Must: false}), q()})
+		res = append(res, []*c04Node{{K: "blk", Body: []*c04Node{w(1), &c04Node{K: "sp", ID: 1, Must: true}, w(2),
+			fh(1, false, wi(3), &c04Node{K: "sp", ID: 2, Must: false}, &c04Node{K: "rb", ID: 1, Must: false}, qi()),
+			&c04Node{K: "rb", ID: 1, Must: true}, q()}, Out: 0, ID: 5, Must: true}, q()})
+		res = append(res, []*c04Node{fh(1, true, w(2)), w(3)})
+	}
+	return res
+}
+
 // c04ValueFamily: a panic / an error raised at depth k below the outermost block travels up through `must` children; commit
 // faults on the plain shapes. Run with EVERY payload / user-error kind and EVERY commit-fault value.
 func c04ValueFamily() [][]*c04Node {
@@ -533,8 +675,26 @@ func (cr *c04Runner) judge(c *c04Case, o *c04Obs) {
 	if len(x.verdicts) == 0 {
 		return
 	}
-	if o.Stale && listed(c04Finding) {
-		r.KnownFinding(c04Finding, x.verdicts[0])
+	// a leak is in no pattern but F27's: Transaction / Begin was invoked outside a transaction on a handle that carries an error
+	var rest []string
+	for _, v := range x.verdicts {
+		if strings.HasPrefix(v, "leak:") {
+			if x.f27 && listed(c04FindingLeak) {
+				r.KnownFinding(c04FindingLeak, v)
+				r.H("e2e_judged", "known finding (Begin on a failed handle leaks)")
+				continue
+			}
+			r.Violate(Violation{Kind: "e2e", Suite: "e2e", Input: c, Observed: o, Expected: x.verdicts})
+			return
+		}
+		rest = append(rest, v)
+	}
+	if len(rest) == 0 {
+		return
+	}
+	// F18: a stale use of a handle whose sticky error gorm itself put there (not the caller: "fh" lineages are excluded)
+	if x.stale18 && listed(c04Finding) {
+		r.KnownFinding(c04Finding, rest[0])
 		r.H("e2e_judged", "known finding (stale handle)")
 		return
 	}
@@ -570,7 +730,7 @@ func (cr *c04Runner) flush() {
 		// refinement covers: no RollbackTo node, no stale use of a poisoned handle (finding F18), no fault in a ROLLBACK TO
 		for i, c := range cr.cases[start:end] {
 			o := cr.obs[start+i]
-			if o.Stale || o.exec.rbFault || c04HasKind(c.body, "rb") || c04HasKind(c.body, "end") {
+			if o.Stale || o.exec.rbFault || c04HasKind(c.body, "rb") || c04HasKind(c.body, "end") || c04HasKind(c.body, "fh") {
 				r.H("spec_vs_real", "outside the fragment")
 				continue
 			}
@@ -657,6 +817,14 @@ func (cr *c04Runner) stats(c *c04Case, o *c04Obs) {
 		for i := 0; i < n; i++ {
 			r.H("tx_ended_underneath", k)
 		}
+	}
+	for k, n := range o.exec.failKinds {
+		for i := 0; i < n; i++ {
+			r.H("failed_handle", k)
+		}
+	}
+	if o.exec.f27 {
+		r.H("begin_on_failed_handle_outside_tx", map[bool]string{true: "leaked", false: "no leak"}[o.exec.leaked])
 	}
 	for range o.exec.injVals {
 		r.H("commit_fault_value", c04CommitErrKindNames[c.EK%c04NCommitErrKinds])
@@ -759,9 +927,17 @@ func c04Shape(body []*c04Node, d int) (depth, nodes int, kinds map[string]int) {
 			kinds[k]++
 			kinds[n.K]--
 		}
-		if n.K == "blk" || n.K == "man" || n.K == "dv" {
+		if n.K == "fh" {
+			kinds["fh/"+n.Kind]++
+			for _, c := range n.Body {
+				if c.K == "blk" || c.K == "man" {
+					kinds["block-invoked-on-failed/"+map[bool]string{true: "inside-tx", false: "top-level"}[inTxShape]]++
+				}
+			}
+		}
+		if n.K == "blk" || n.K == "man" || n.K == "dv" || n.K == "fh" {
 			saved := inTxShape
-			if n.K != "dv" {
+			if n.K != "dv" && n.K != "fh" {
 				inTxShape = true
 			}
 			dd, nn, kk := c04Shape(n.Body, d+1)
@@ -832,8 +1008,11 @@ func init() {
 		defer cr.closeAll()
 		cfgs := c04Cfgs()
 
-		// 0. the listed finding is re-confirmed on its minimal witness
+		// 0. the listed findings are re-confirmed on their minimal witnesses
 		c04ProbeFinding(cr)
+		c04ProbeLeak(cr)
+		r.Note("regenerated fact: Begin returns a handle that already carries an error before touching the pool = %v", c04Facts().BeginChecksError)
+		r.H("facts.beginChecksError", fmt.Sprint(c04Facts().BeginChecksError))
 
 		// 1. hand-written manual / mixed sequences × configs × every single fault
 		for _, src := range c04Manual() {
@@ -888,6 +1067,17 @@ func init() {
 				for k := 0; k < nk; k++ {
 					cfg := cfgs[(i+3*k)%len(cfgs)]
 					cr.allSingleFaults(cfg, nil, body, k, k%c04NCommitErrKinds)
+				}
+			}
+			for i, body := range c04FailFamily() {
+				for j, cfg := range cfgs {
+					if tier == "quick" && (j+16-i%16)%16%4 != 0 {
+						continue
+					}
+					cr.allSingleFaults(cfg, []int64{102}, body)
+				}
+				if len(cr.cases) >= 8000 {
+					cr.flush()
 				}
 			}
 			for i, body := range c04EndFamily() {
@@ -1000,6 +1190,44 @@ func c04ProbeFinding(cr *c04Runner) {
 		}
 	} else if !listed(c04Finding) {
 		cr.r.Note("%s reproduces but is not listed", c04Finding)
+	}
+}
+
+// minimal witnesses of F27: Transaction / Begin invoked on a handle that already carries an error — its own AddError, the
+// handle a failed finisher returned. Unrepaired tree: the BEGIN is issued and nothing ever ends it (one transaction open, one
+// connection in use after the program). Repaired tree: the witnesses are ordinary cases, judged by run() like every other —
+// no driver BEGIN at all, the handle's error comes back, nothing is open.
+func c04ProbeLeak(cr *c04Runner) {
+	for _, src := range []string{
+		`[["fh","adderr:Session",1,[["blk",[["w",1,true]],0,2,true]],true]]`,
+		`[["fh","firstmiss:First",1,[["blk",[["w",1,true]],0,2,true]],true]]`,
+		`[["fh","firstmiss:First",1,[["man",[["w",1,true]],0,true]],true]]`,
+		`[["fh","adderr:WithContext",1,[["man",[["w",1,true]],1,true]],true]]`,
+	} {
+		body, err := c04DecBody(json.RawMessage(src))
+		if err != nil {
+			panic(err)
+		}
+		for _, cfg := range []c04Cfg{{}, {Prep: true}, {Wrap: true}} {
+			c := mkCase(cfg, nil, body, nil, false)
+			o := cr.run(c, "finding-probe")
+			began := strings.Contains(strings.Join(o.Trace, ""), "B")
+			leaks := o.Open == 1 && o.InUse == 1 && began && canon(o.Store) == "[]" && fmt.Sprint(o.Res[0]) == "err"
+			clean := o.Open == 0 && o.InUse == 0 && !began && canon(o.Store) == "[]" && fmt.Sprint(o.Res[0]) == "err"
+			switch {
+			case leaks && !listed(c04FindingLeak):
+				cr.r.Note("%s reproduces but is not listed", c04FindingLeak) // (run() has raised the violation)
+			case leaks:
+			case clean && c04Facts().BeginChecksError:
+				if listed(c04FindingLeak) {
+					cr.r.Note("%s no longer reproduces on %s: the tree carries the repair (Begin checks tx.Error); the entry can be flipped to fixed", c04FindingLeak, src)
+				}
+			default:
+				cr.r.Note("%s: witness %s %s neither leaks as listed nor behaves correctly: %s", c04FindingLeak, src, cfg, canon(o))
+				cr.r.Violate(Violation{Kind: "correspondence", Suite: "tie", Input: c, Observed: o,
+					Note: "witness of F27: expected either the listed leak (unrepaired Begin) or no BEGIN at all and the handle's error (repaired Begin, fact beginChecksError)"})
+			}
+		}
 	}
 }
 
